@@ -26,7 +26,7 @@ Fixpoint chain_ok (prev : option (Z * tileMatrix)) (l : list (Z * tileMatrix)) :
   | [] => True
   | (k, m) :: r =>
       single_ok k m /\
-      match prev with None => True | Some (pk, pm) => pair_ok pk pm k m end /\
+      match prev with None => k = 0 | Some (pk, pm) => pair_ok pk pm k m end /\
       chain_ok (Some (k, m)) r
   end.
 
@@ -87,7 +87,9 @@ Proof.
         -- apply check_pair_accept in EP. rewrite IH. tauto.
         -- split; [discriminate|]. intros [_ [P _]]. apply check_pair_accept in P. congruence.
         -- split; [discriminate|]. intros [_ [P _]]. apply check_pair_accept in P. congruence.
-      * rewrite IH. tauto.
+      * destruct (Z.eqb_spec k 0) as [E0|E0]; cbn [negb].
+        -- rewrite IH. tauto.
+        -- split; [discriminate|]. intros [_ [P _]]. contradiction.
 Qed.
 
 (** ** Soundness for every record, every level *)
@@ -111,14 +113,51 @@ Proof.
     + eapply IH; eauto.
 Qed.
 
+(** the ids of an accepted set: the first one is 0 (since the repair of F22), hence they are exactly 0, 1, .., n-1 *)
+Fixpoint keys_from (k : Z) (l : list (Z * tileMatrix)) : Prop :=
+  match l with
+  | [] => True
+  | (k', _) :: r => k' = k /\ keys_from (k + 1) r
+  end.
+
+Lemma chain_keys : forall l pk pm, chain_ok (Some (pk, pm)) l -> keys_from (pk + 1) l.
+Proof.
+  induction l as [|[k m] r IH]; intros pk pm H; simpl in *; auto.
+  destruct H as [_ [[E _] C]]. split; auto. subst k. eapply IH; eauto.
+Qed.
+
+Lemma chain_keys_none : forall l, chain_ok None l -> keys_from 0 l.
+Proof.
+  intros [|[k m] r] H; cbn [chain_ok keys_from] in *; auto.
+  destruct H as [_ [E C]]. split; [exact E|]. subst k. exact (chain_keys r 0 m C).
+Qed.
+
+(** 0, 1, .., n-1 *)
+Definition iota (n : nat) : list Z := map Z.of_nat (seq 0 n).
+
+Lemma keys_from_map : forall l k, keys_from k l -> map fst l = map (fun i => k + Z.of_nat i) (seq 0 (length l)).
+Proof.
+  induction l as [|[k' m] r IH]; intros k H; simpl in *; [reflexivity|].
+  destruct H as [E H]. subst k'. f_equal; [lia|].
+  rewrite (IH _ H). rewrite <- seq_shift, map_map. apply map_ext. intros i. lia.
+Qed.
+
+Lemma keys_from_iota : forall l, keys_from 0 l -> map fst l = iota (length l).
+Proof. intros l H. rewrite (keys_from_map _ _ H). unfold iota. apply map_ext. intros i. lia. Qed.
+
 Theorem isQuadTree_sound_lemma : forall t, isQuadTree t = Accept ->
   let l := sorted_matrices t in
   (forall k m, In (k, m) l -> single_ok k m) /\
-  (forall i k1 m1 k2 m2, nth_error l i = Some (k1, m1) -> nth_error l (S i) = Some (k2, m2) -> pair_ok k1 m1 k2 m2).
+  (forall i k1 m1 k2 m2, nth_error l i = Some (k1, m1) -> nth_error l (S i) = Some (k2, m2) -> pair_ok k1 m1 k2 m2) /\
+  (forall k m, nth_error l 0 = Some (k, m) -> k = 0) /\
+  map fst l = iota (length l).
 Proof.
-  intros t H l. unfold isQuadTree in H. apply iqt_loop_accept in H. split.
+  intros t H l. unfold isQuadTree in H. apply iqt_loop_accept in H. split; [|split; [|split]].
   - eapply chain_ok_all_single; eauto.
   - eapply chain_ok_adjacent; eauto.
+  - intros k m H0. fold l in H. destruct l as [|[k0 m0] r]; [discriminate|]. simpl in H0. inversion H0; subst.
+    simpl in H. tauto.
+  - apply keys_from_iota. apply chain_keys_none. exact H.
 Qed.
 
 (** the sorted list is a permutation of the map *)
@@ -171,7 +210,7 @@ Proof.
       * apply IH; [exact Hr|exact Hm].
       * discriminate.
       * exfalso. exact (check_pair_no_panic pk pm k m HP Hm EP).
-    + apply IH; [exact Hr|exact Hm].
+    + destruct (negb (k =? 0)); [discriminate|]. apply IH; [exact Hr|exact Hm].
 Qed.
 
 Lemma isQuadTree_no_panic : forall t, origins_present (t_matrices t) -> isQuadTree t <> VPanic.
@@ -290,18 +329,6 @@ Lemma sorted_delete : forall t k, sorted_matrices (delete_tm t k) = filter (keep
 Proof. intros. unfold sorted_matrices, delete_tm, set_matrices; simpl. apply sort_filter. Qed.
 
 (** keys along an accepted chain are consecutive *)
-Fixpoint keys_from (k : Z) (l : list (Z * tileMatrix)) : Prop :=
-  match l with
-  | [] => True
-  | (k', _) :: r => k' = k /\ keys_from (k + 1) r
-  end.
-
-Lemma chain_keys : forall l pk pm, chain_ok (Some (pk, pm)) l -> keys_from (pk + 1) l.
-Proof.
-  induction l as [|[k m] r IH]; intros pk pm H; simpl in *; auto.
-  destruct H as [_ [[E _] C]]. split; auto. subst k. eapply IH; eauto.
-Qed.
-
 Lemma keys_from_in : forall l k k' m, keys_from k l -> In (k', m) l -> k <= k'.
 Proof.
   induction l as [|[k0 m0] r IH]; intros k k' m H HI; simpl in *; [contradiction|].
@@ -328,7 +355,7 @@ Proof.
     simpl. apply check_single_none in S. rewrite S.
     destruct prev as [[pk pm]|].
     + apply check_pair_accept in P. rewrite P. eapply IH; eauto.
-    + eapply IH; eauto.
+    + subst k. cbn [Z.eqb negb]. eapply IH; eauto.
 Qed.
 
 Lemma chain_ok_app : forall l1 prev rest, chain_ok prev (l1 ++ rest) -> chain_ok (lastp prev l1) rest.
@@ -492,6 +519,7 @@ Proof.
       rewrite ES in H. simpl in H. lia.
     + simpl in C0. destruct C0 as [S1 [P1 _]].
       simpl. apply check_single_none in HS. rewrite HS.
+      destruct (Z.eqb_spec k 0) as [K0|K0]; [cbn [negb]|contradiction].
       apply check_single_none in S1. rewrite S1.
       destruct (check_pair k (f m) nk nm) eqn:EP.
       * apply check_pair_accept in EP. exfalso. eapply HN; eauto.
@@ -521,9 +549,6 @@ Proof.
   - inversion Hb; reflexivity.
   - specialize (H2 _ _ Hb). lia.
 Qed.
-
-Lemma chain_ok_weaken : forall l p, chain_ok (Some p) l -> chain_ok None l.
-Proof. intros [|[k m] r] p H; simpl in *; tauto. Qed.
 
 Lemma find_tm_filter : forall k l, find_tm k (filter (keep k) l) = None.
 Proof.
@@ -569,6 +594,99 @@ Proof.
     eapply chain_in_unique; [exact HC| |exact HI]. apply in_or_app; right; right; left; reflexivity.
 Qed.
 
+(** ** Renumbering and removing the first matrices (F22) *)
+Definition with_id (s : string) (m : tileMatrix) : tileMatrix :=
+  MkTM s (tm_title m) (tm_description m) (tm_keywords m) (tm_scaleDenominator m) (tm_cellSize m) (tm_corner m) (tm_origin m) (tm_tileWidth m) (tm_tileHeight m) (tm_matrixWidth m) (tm_matrixHeight m) (tm_vmw m).
+
+(** every tile matrix k becomes tile matrix k + s: the map key and the id string (strconv.Itoa) together, so that the
+    set stays consistent in everything else *)
+Definition shift_entry (s : Z) (e : Z * tileMatrix) : Z * tileMatrix := (fst e + s, with_id (itoa (fst e + s)) (snd e)).
+Definition shift_ids (t : tms) (s : Z) : tms := set_matrices t (map (shift_entry s) (t_matrices t)).
+
+(** the tile matrices with an id below j removed *)
+Definition remove_below (t : tms) (j : Z) : tms := set_matrices t (filter (fun e => j <=? fst e) (t_matrices t)).
+
+Lemma insert_by_key_shift : forall s e l,
+  insert_by_key (shift_entry s e) (map (shift_entry s) l) = map (shift_entry s) (insert_by_key e l).
+Proof.
+  intros s e l. induction l as [|e' r IH]; [reflexivity|].
+  cbn [map insert_by_key].
+  assert (F : (fst (shift_entry s e) <? fst (shift_entry s e')) = (fst e <? fst e')).
+  { unfold shift_entry; cbn [fst].
+    destruct (Z.ltb_spec (fst e) (fst e')); destruct (Z.ltb_spec (fst e + s) (fst e' + s)); auto; lia. }
+  rewrite F. destruct (fst e <? fst e'); [reflexivity|].
+  cbn [map]. f_equal. exact IH.
+Qed.
+
+Lemma sort_shift : forall s l,
+  fold_right insert_by_key [] (map (shift_entry s) l) = map (shift_entry s) (fold_right insert_by_key [] l).
+Proof.
+  intros s l. induction l as [|e r IH]; [reflexivity|].
+  cbn [map fold_right]. rewrite IH. apply insert_by_key_shift.
+Qed.
+
+Lemma sorted_shift : forall t s, sorted_matrices (shift_ids t s) = map (shift_entry s) (sorted_matrices t).
+Proof. intros. unfold sorted_matrices, shift_ids, set_matrices; simpl. apply sort_shift. Qed.
+
+(** a non-empty list of matrices whose first id is not 0 is rejected with an error: by a per-matrix check of the
+    first matrix, or by the check of the first id *)
+Lemma iqt_first_nonzero : forall k m r, k <> 0 -> rejected (iqt_loop None ((k, m) :: r)).
+Proof.
+  intros k m r Hk. cbn [iqt_loop]. destruct (check_single k m) as [c|]; [eexists; reflexivity|].
+  destruct (Z.eqb_spec k 0); [contradiction|]. cbn [negb]. eexists; reflexivity.
+Qed.
+
+Lemma iqt_no_zero : forall l, l <> [] -> (forall k m, In (k, m) l -> k <> 0) -> rejected (iqt_loop None l).
+Proof.
+  intros [|[k m] r] HN H; [contradiction|]. apply iqt_first_nonzero. apply (H k m). left; reflexivity.
+Qed.
+
+Lemma accepted_head : forall t, isQuadTree t = Accept -> t_matrices t <> [] ->
+  exists m r, sorted_matrices t = (0, m) :: r.
+Proof.
+  intros t HA HN. unfold isQuadTree in HA. apply iqt_loop_accept in HA.
+  destruct (sorted_matrices t) as [|[k m] r] eqn:ES.
+  - exfalso. apply HN. destruct (t_matrices t) as [|e r] eqn:ET; [reflexivity|].
+    assert (HI : In e (sorted_matrices t)) by (apply in_sorted_iff; rewrite ET; left; reflexivity).
+    rewrite ES in HI. contradiction.
+  - simpl in HA. destruct HA as [_ [E _]]. subst k. eauto.
+Qed.
+
+Lemma shift_rejected : forall t s, isQuadTree t = Accept -> t_matrices t <> [] -> s <> 0 ->
+  rejected (isQuadTree (shift_ids t s)).
+Proof.
+  intros t s HA HN Hs. destruct (accepted_head t HA HN) as [m [r ES]].
+  unfold isQuadTree. rewrite sorted_shift, ES. cbn [map]. unfold shift_entry at 1. cbn [fst snd].
+  apply iqt_first_nonzero. lia.
+Qed.
+
+Lemma remove_below_rejected : forall t j j' m', 0 < j -> In (j', m') (t_matrices t) -> j <= j' ->
+  rejected (isQuadTree (remove_below t j)).
+Proof.
+  intros t j j' m' Hj HI Hle. unfold isQuadTree. apply iqt_no_zero.
+  - intro E.
+    assert (HI' : In (j', m') (sorted_matrices (remove_below t j))).
+    { apply in_sorted_iff. unfold remove_below, set_matrices. cbn [t_matrices].
+      apply filter_In. split; [exact HI|]. cbn [fst]. apply Z.leb_le. exact Hle. }
+    rewrite E in HI'. contradiction.
+  - intros k m HIn. apply in_sorted_iff in HIn. unfold remove_below, set_matrices in HIn. cbn [t_matrices] in HIn.
+    apply filter_In in HIn. destruct HIn as [_ HK]. cbn [fst] in HK. apply Z.leb_le in HK. lia.
+Qed.
+
+Lemma delete_zero_rejected : forall t, isQuadTree t = Accept -> (2 <= length (t_matrices t))%nat ->
+  rejected (isQuadTree (delete_tm t 0)).
+Proof.
+  intros t HA HL.
+  assert (HC : chain_ok None (sorted_matrices t)) by (apply iqt_loop_accept; exact HA).
+  assert (LEN : length (sorted_matrices t) = length (t_matrices t))
+    by (symmetry; apply Permutation_length, sorted_perm).
+  unfold isQuadTree. rewrite sorted_delete.
+  destruct (sorted_matrices t) as [|[k0 m0] [|[k1 m1] r]] eqn:ES; cbn [length] in LEN; try lia.
+  cbn [chain_ok] in HC. destruct HC as [_ [E0 [_ [[E1 _] C]]]]. subst k0 k1.
+  cbn [filter]. unfold keep at 1 2. cbn [fst]. change (negb (0 =? 0)) with false. change (negb (0 + 1 =? 0)) with true.
+  cbn iota. apply iqt_first_nonzero. lia.
+Qed.
+
 Theorem perturbation_rejected_lemma : forall t ids k m,
   validate t ids = Accept -> In (k, m) (t_matrices t) ->
   (forall v, v <> tm_matrixWidth m -> rejected (validate (update_tm t k (with_matrixWidth v)) ids)) /\
@@ -584,7 +702,12 @@ Theorem perturbation_rejected_lemma : forall t ids k m,
      rejected (validate (update_tm t k (with_cellSize d)) ids)) /\
   (forall nm, In (k + 1, nm) (t_matrices t) -> (k = 0 \/ exists pm, In (k - 1, pm) (t_matrices t)) ->
      rejected (validate (delete_tm t k) ids)) /\
-  (forall v vs, rejected (validate (update_tm t k (with_vmw (v :: vs))) ids)).
+  (forall v vs, rejected (validate (update_tm t k (with_vmw (v :: vs))) ids)) /\
+  (forall s, s <> 0 -> rejected (isQuadTree (shift_ids t s)) /\ rejected (validate (shift_ids t s) ids)) /\
+  ((2 <= length (t_matrices t))%nat ->
+     rejected (isQuadTree (delete_tm t 0)) /\ rejected (validate (delete_tm t 0) ids)) /\
+  (forall j, 0 < j -> j <= k ->
+     rejected (isQuadTree (remove_below t j)) /\ rejected (validate (remove_below t j) ids)).
 Proof.
   intros t ids k m HV HI. assert (HA := validate_accept_quad _ _ HV).
   assert (HC0 : chain_ok None (sorted_matrices t)) by (apply iqt_loop_accept; exact HA).
@@ -655,7 +778,7 @@ Proof.
         -- exact Step.
         -- eexists; reflexivity.
         -- exfalso. apply pair_origin in P. refine (check_pair_no_panic pk pm k (with_cellSize d m) _ _ EP); simpl; tauto.
-      * exact Step.
+      * destruct (Z.eqb_spec k 0) as [K0|K0]; [cbn [negb]; exact Step|contradiction].
   - intros nm Hn Hk.
     apply in_sorted_iff in HI. destruct (accepted_split _ _ _ HC0 HI) as [l1 [l2 [ES [H1 H2]]]].
     assert (HCs : chain_ok None (l1 ++ (k, m) :: l2)) by (rewrite <- ES; exact HC0).
@@ -669,20 +792,18 @@ Proof.
       simpl. apply check_single_none in SN. rewrite SN. unfold check_pair.
       destruct (Z.eqb_spec (k + 1) (pk + 1)); [lia|]. simpl. eexists; reflexivity.
     + apply lastp_none in EL. subst l1. destruct Hk as [Hk|[pm Hp]].
-      * subst k. unfold validate. rewrite EQ.
-        assert (A : iqt_loop None ((0 + 1, nm) :: r2) = Accept).
-        { apply iqt_loop_accept. cbn [chain_ok]. split; [exact SN|split; [exact I|exact CN]]. }
-        simpl lastp. rewrite A.
-        unfold validate in HV. rewrite HA in HV. destruct ids as [|i r]; [discriminate|].
-        destruct (ids_exist (delete_tm t 0) (i :: r)); [|eexists; reflexivity].
-        cbn [max_list].
-        unfold deviationVerdict, matrixBoundingBox, delete_tm, set_matrices. simpl t_matrices.
-        rewrite find_tm_filter. eexists; reflexivity.
+      * subst k. apply validate_of_rejected_quad. rewrite EQ. simpl lastp. apply iqt_first_nonzero. lia.
       * exfalso. apply in_sorted_iff in Hp. rewrite ES in Hp. simpl in Hp. destruct Hp as [Hp|Hp].
         -- inversion Hp; lia.
         -- specialize (H2 _ _ Hp). lia.
   - intros v vs. apply validate_of_rejected_quad. eapply reject_single; eauto.
     intros [_ [_ [_ A]]]. simpl in A. discriminate.
+  - apply shift_rejected; auto. intro E. rewrite E in HI. contradiction.
+  - apply validate_of_rejected_quad. apply shift_rejected; auto. intro E. rewrite E in HI. contradiction.
+  - apply delete_zero_rejected; auto.
+  - apply validate_of_rejected_quad. apply delete_zero_rejected; auto.
+  - eapply remove_below_rejected; eauto.
+  - apply validate_of_rejected_quad. eapply remove_below_rejected; eauto.
 Qed.
 
 (** ** What acceptance by the composite validation adds *)
